@@ -48,6 +48,8 @@ PrimType(fam, ts) ==
     [] fam = "tobi" -> IF Len(ts) = 1 /\ ts[1] \in Num THEN BI ELSE ERR
     [] fam = "pow" -> IF Len(ts) = 2 /\ ts[1] \in Num /\ ts[2] \in Num THEN ts[1] ELSE ERR
     [] fam = "not" -> IF Len(ts) = 1 /\ ts[1] = BOOL THEN BOOL ELSE ERR
+    [] fam = "cat" -> IF Len(ts) = 2 /\ ts[1] = STR /\ ts[2] = STR THEN STR ELSE ERR        \* concat(s, t)
+    [] fam = "len" -> IF Len(ts) = 1 /\ ts[1] = STR THEN SI ELSE ERR                        \* #s
     [] OTHER -> ERR
 
 (* Context: G variables (name -> [t, asg]), ret: return type or ERR (no return allowed),  *)
